@@ -33,8 +33,13 @@ NOT_EXC_NOT_FRAME = r'^(?!raises-if|raises-only-if|frame-on-raise|frame::|class-
 MATCH = [MT + '_integral_matching_stretch', MT + '_interval_integral_matching_stretch', MT + 'integral_matching_reference_stretch']
 C03_CLAUSES = r'ensures::(kernel_profile|kernel_ends_fixed|kernel_idempotent|windows_frame|top_frame)'
 
+def _mq(*fs):
+    return list(fs)
+
+
 PROPS = {
     'C01': dict(
+        monitor_quick=[MT + 'integral_matching_reference_stretch', MT + '_integral_matching_stretch', MT + '_interval_integral_matching_stretch'],
         functions=MATCH + [SAU + 'rectangle_integral', SAU + 'trapezoid_integral', SAU + 'integral', SAU + 'sum_over_indices'],
         select=[('match.', r'^(?!' + C03_CLAUSES + r')')],
         level='proof',
@@ -51,6 +56,7 @@ PROPS = {
                      "the corollary 'first to last fixed point = reference total' follows by SUM_SPLIT; it is not stated as a separate clause"],
     ),
     'C03': dict(
+        monitor_quick=[MT + 'integral_matching_reference_stretch', MT + '_integral_matching_stretch'],
         functions=MATCH,
         select=[('match.', r'^(?!ensures::(kernel_integral|windows_integrals|top_integrals))')],
         level='proof',
@@ -61,6 +67,7 @@ PROPS = {
                      "'matching a matched function changes nothing' is proved per window (kernel_idempotent); the top-level corollary is not restated"],
     ),
     'C10': dict(
+        monitor_quick=SCANS,
         functions=SCANS,
         level='proof',
         explanation=("Definitional postconditions (largest element <= query / smallest >= / nearest with ties to the lower index, "
@@ -70,6 +77,7 @@ PROPS = {
                      "precondition: x strictly increasing and non-empty, lookup non-decreasing and non-empty (from the property's quantifier)"],
     ),
     'C11': dict(
+        monitor_quick=[PR + 'truncate', WV + 'truncate_by_value', WV + 'slice_by_value', WV + 'slice_by_index', WV + 'truncate_by_index'],
         functions=[PR + 'truncate', WV + 'truncate_by_value', WV + 'truncate_by_index', WV + 'slice_by_value', WV + 'slice_by_index'],
         select=[('', r'^(?!frame-on-raise)')],
         level='proof',
@@ -79,6 +87,7 @@ PROPS = {
         assumptions=[A_REAL, A_LEN, "truncate_by_index precondition: working and reference series have the same length and the cut is non-empty"],
     ),
     'C12': dict(
+        monitor_quick=[PR + 'repeat', WV + 'repeat'],
         functions=[PR + 'repeat', WV + 'repeat'],
         level='proof',
         explanation=("repeat: r*len samples, values tiled, copy c shifted by c*(span + last step) - proved with a loop invariant over "
@@ -87,6 +96,7 @@ PROPS = {
         assumptions=[A_REAL, A_LEN],
     ),
     'C13': dict(
+        monitor_quick=[PR + 'interpolate', PR + '_piecewise_constant_interpolate', WV + 'interpolate'],
         functions=[PR + '_piecewise_constant_interpolate', PR + 'interpolate', WV + 'interpolate'],
         select=[('', r'^(?!frame-on-raise)')],
         level='proof',
@@ -99,9 +109,9 @@ PROPS = {
                      "unknown **kwargs forwarded to the library calls are treated as absent"],
     ),
     'C14': dict(
+        monitor_quick=[PR + 'trend', PR + 'linear_trend', PR + 'normalize', WV + 'trend', WV + 'scale_y', WV + 'normalize_y'],
         functions=[PR + 'trend', PR + 'linear_trend', PR + 'normalize', WV + 'trend', WV + 'shift_x', WV + 'shift_y', WV + 'scale_x',
                    WV + 'scale_y', WV + 'normalize_x', WV + 'normalize_y'],
-        select=[('process.trend', r'^(?!frame::y)')],
         level='proof',
         explanation=("trend: y_i + f(x_i) resp. f(x_i/(x_last-x_first)) for an uninterpreted pure f, x untouched (loop invariant); "
                      "normalize: min->min_val, max->max_val, order and ratios of differences preserved; shift/scale pointwise on working "
@@ -109,6 +119,7 @@ PROPS = {
         assumptions=[A_REAL, "A-pure: the trend callable is deterministic and side-effect free"],
     ),
     'C15': dict(
+        monitor_quick=[PR + 'noise_gauss'],
         functions=[PR + 'noise_gauss'],
         level='proof',
         explanation=("Proved: numpy.random.normal is called exactly once with loc = 0, size = len(a) and scale = "
@@ -126,6 +137,7 @@ PROPS = {
         assumptions=[A_REAL, "scipy splrep/BSpline: sum((y-g(x))^2) <= s(1+tol), interpolation for s = 0 (assumed library contract)"],
     ),
     'C17': dict(
+        monitor_quick=[SAU + 'oversample_linspace', SAU + 'oversample_piecewise_constant', SAU + 'extend_linspace', SAU + 'extend_constant', SAU + 'append_one_sample', PR + 'average', IA + 'to_2d_array', IA + '__setitem__'],
         functions=[SAU + f for f in ('append_one_sample', 'oversample_linspace', 'oversample_piecewise_constant', 'extend_linspace',
                                      'extend_constant', 'rectangle_integral', 'trapezoid_integral', 'integral', 'sum_over_indices')]
         + [IA + m for m in ('__init__', '__getitem__', '__setitem__', 'nr_of_full_intervals', '__len__', 'to_2d_array')]
@@ -138,6 +150,7 @@ PROPS = {
         assumptions=[A_REAL, A_LEN, "NumPy array-algebra contracts (linspace, flatten, repeat, insert, pad, reshape, nanmean, ...)"],
     ),
     'C08': dict(
+        monitor_quick=WEAVER_MUTATORS,
         functions=WEAVER_MUTATORS,
         select=[('', r'(sync|ensures::(?!restore_like_new))')],
         level='proof',
@@ -147,6 +160,7 @@ PROPS = {
         assumptions=[A_REAL],
     ),
     'C09': dict(
+        monitor_quick=WEAVER_MUTATORS + [PR + 'trend'],
         functions=WEAVER_MUTATORS + WEAVER_READERS + [PR + 'trend'],
         select=[('weaver.Weaver', r'^(class-inv|frame::|ensures::restore|ensures::init_post|no-raise)'), ('process.trend', r'^frame::')],
         level='proof',
@@ -194,6 +208,7 @@ PROPS = {
                      "validate_checksum=True (all 76 loaders pass it: C18 obligation validate-checksum-on); unpack flag False"],
     ),
     'C20': dict(
+        monitor_quick=[WV + 'truncate_by_value', WV + 'slice_by_value', WV + 'interpolate', WV + 'slice_by_index', PR + 'interpolate'],
         functions=[WV + m for m in ('__init__', 'from_2d_array', 'slice_by_index', 'slice_by_value', 'interpolate', 'truncate_by_index',
                                     'truncate_by_value')] + [PR + 'truncate', PR + 'interpolate', SAU + 'integral',
                                                              SAU + 'find_closest_element_indices_to_values'] + MATCH,
